@@ -132,11 +132,13 @@ def build(topo, knows_net):
 @meta(bounds="the instance's loop-free topology (2 stations per network, routers of 2..4 ports) built concretely; source station, "
              "destination kind (unicast / local broadcast / remote broadcast / global broadcast), destination network and "
              "station symbolic; router caches cold or warmed by the routers' own startup announcements (per instance); stations "
-             "that do / do not know their network number (per instance); payload of 3 symbolic octets",
+             "that do / do not know their network number, or learn it from the routers' Network-Number-Is (per instance); "
+             "history=True: an earlier unicast between station 1 of a symbolic pair of networks leaves the caches partly "
+             "warm, then station 2 of a symbolic network sends a unicast or remote broadcast; payload of 3 symbolic octets",
       outside="topologies other than the six instantiated (random trees of up to 8 networks), more than 2 stations per network, "
               "route-aware addressing (settings.route_aware)",
       stubs=STUBS)
-def route_scn(d, topo, warm, knows_net):
+def route_scn(d, topo, warm, knows_net, announce=False, history=False):
     T = TOPO[topo]
     w = World()
     lans, stations, routers = build(T, knows_net)
@@ -144,17 +146,37 @@ def route_scn(d, topo, warm, knows_net):
         for r in routers:
             r.nse.startup()
         w.run()
-        for x in stations.values():
-            x.got = []
+    if announce:
+        # the routers tell every network its number (Network-Number-Is): stations bound without one learn it
+        for r in routers:
+            r.nse.network_number_is()
+        w.run()
+    if history:
+        # an earlier exchange leaves the caches PARTLY warm: station 1 of a symbolic network wrote to station 1 of
+        # another; who knows which path depends on where the discovery went
+        nets_ = T["nets"]
+        pairs = [(a, b) for a in nets_ for b in nets_ if a != b]
+        a, b = d.pick(pairs, 'earlier_exchange')
+        stations[(a, 1)].send(RemoteStation(b, 1), bytes([0xEE, a, b]))
+        w.run()
+        if len(stations[(b, 1)].got) != 1:
+            raise Violation("delivery-count", station=(b, 1), got=len(stations[(b, 1)].got), want=1, kind="earlier-unicast",
+                            source=(a, 1), topo=topo)
+    for x in stations.values():
+        x.got = []
     for lan in lans.values():
         lan.frames = []
     keys = sorted(stations)
-    src = d.pick(keys, 'source')
+    if history:
+        src = d.pick([k for k in keys if k[1] == 2], 'source')
+        kind = d.pick(["unicast", "remote-broadcast"], 'kind')
+    else:
+        src = d.pick(keys, 'source')
+        kind = d.pick(["unicast", "local-broadcast", "remote-broadcast", "global-broadcast"], 'kind')
     sn, sk = src
-    kind = d.pick(["unicast", "local-broadcast", "remote-broadcast", "global-broadcast"], 'kind')
     payload = d.bytes(3, 3, 'payload')
     if kind == "unicast":
-        dst = d.pick([k for k in keys if k != src], 'destination')
+        dst = d.pick([k for k in keys if k != src and (not history or (k[1] == 1 and k[0] != sn))], 'destination')
         dn, dk = dst
         dest = LocalStation(dk) if dn == sn else RemoteStation(dn, dk)
         expect = {dst}
@@ -283,6 +305,12 @@ def instances(tier):
                 out.append(Inst(route_scn, dict(topo=t, warm=warm, knows_net=knows), budget=80 if q else 900,
                                 path_timeout=90, label="%s,%s,%s" % (t, "warm" if warm else "cold",
                                                                      "knows-net" if knows else "net-unknown")))
+    for t in (["line3"] if q else ["line3", "star3", "line4", "tree5"]):
+        out.append(Inst(route_scn, dict(topo=t, warm=False, knows_net=True, history=True), budget=120 if q else 900,
+                        path_timeout=90, label="%s,partly-warm" % t))
+    for t in (["pair", "line3"] if q else list(TOPO)):
+        out.append(Inst(route_scn, dict(topo=t, warm=False, knows_net=False, announce=True), budget=80 if q else 900,
+                        path_timeout=90, label="%s,cold,learns-net" % t))
     out.append(Inst(route_cycle, dict(hmax=3 if q else 6, remote=False), budget=80 if q else 300))
     out.append(Inst(route_cycle, dict(hmax=3 if q else 6, remote=True), budget=80 if q else 300))
     return out
